@@ -471,3 +471,46 @@ def check_views_equal(ctx, real, spec, prefix=""):
     ctx.check(f"{prefix}processor-events", events_eq(ctx, real.events, spec.events))
     for c in getattr(real, "angle_checks", []):
         ctx.check(f"{prefix}hook-receives-angle-n*pi/2**d", c)
+
+
+class Diverged(Exception):
+    """the program under execution did not finish within the step budget (treated as 'does not terminate')"""
+
+
+def run_bounded(ctx, ex, sub, steps=150_000, seconds=10):
+    """execute a whole subroutine on the executor with a budget: interpreter steps when symbolic, wall-clock seconds natively.
+    Returns None (finished), an exception raised by the program, or a Diverged instance."""
+    from pyvc.harness import Raised
+    from pyvc.values import Unsupported
+    if ctx.symbolic:
+        it = ctx.it
+        old = it.max_steps
+        it.max_steps = min(old, it.steps + steps)
+        try:
+            gen = ctx.call(ex.execute_subroutine, sub)
+            ctx.call(list, gen)
+        except Raised as r:
+            return r.e
+        except Unsupported as u:
+            if "step budget exhausted" in str(u) and it.steps >= it.max_steps and it.max_steps < old:
+                return Diverged(f"no end within {steps} interpreter steps")
+            raise
+        finally:
+            it.max_steps = old
+        return None
+    import signal
+
+    def on_alarm(signum, frame):
+        raise Diverged(f"no end within {seconds} s")
+    prev = signal.signal(signal.SIGALRM, on_alarm)
+    signal.alarm(seconds)
+    try:
+        list(ex.execute_subroutine(sub))
+    except Diverged as d:
+        return d
+    except Exception as e:
+        return e
+    finally:
+        signal.alarm(0)
+        signal.signal(signal.SIGALRM, prev)
+    return None
